@@ -51,7 +51,7 @@ Relax(tags, q) == IF ord[q] THEN tags
                   ELSE tags \ {"peek_extreme", "pop_extreme", "popif_extreme", "sorted_order", "order"}
 
 \* operations after which the heap order has been rebuilt from scratch
-Rebuilds == {"retain", "retain_mut", "convert", "clear", "from_vec", "from_iter", "de", "new", "append"}
+Rebuilds == {"retain", "retain_mut", "convert", "clear", "drain", "from_vec", "from_iter", "de", "new", "append"}
 
 \* which panics are allowed: the documented capacity-overflow panics of reserve / reserve_exact
 PanicAllowed == e.op \in {"reserve", "reserve_exact"} /\ e.cls # "small"
@@ -68,6 +68,7 @@ OpOfEvent ==
   CASE e.op \in {"push", "push_increase", "push_decrease", "change_priority", "change_priority_by"}
          -> [op |-> e.op, k |-> e.k, r |-> e.r]
     [] e.op = "remove" -> [op |-> e.op, k |-> e.k]
+    [] e.op = "drain" -> [op |-> e.op, n |-> e.n]
     [] e.op \in {"pop_if", "pop_min_if", "pop_max_if"} -> [op |-> e.op, yes |-> e.yes, set |-> SetOf(e.set)]
     [] e.op \in {"retain", "retain_mut"} ->
          [op |-> e.op, keep |-> {e.calls[i].k : i \in {j \in 1..Len(e.calls) : e.calls[j].keep}}, set |-> SetFn(e.calls)]
@@ -227,10 +228,12 @@ StepIterCalls ==
          isMut == e.op = "iter_calls" /\ e.it \in {"iter_mut", "iter_mut_ref"}
          ordered == IF isDrain THEN TRUE ELSE IF isMut THEN ~e.forget ELSE ord[q]
          expected == IF isDrain THEN EmptyMap ELSE a
-         tags == ProtoFails(e.res, Elems(a), e.adapt, e.k, e.panic = 1)
-                 \cup (IF e.it = "sorted" /\ e.adapt \in {"", "none"} THEN OrderWalk(e.res, 1, Elems(a), e.kind) ELSE {})
-                 \cup (IF e.it # "sorted" /\ e.adapt \in {"", "none"} /\ "ref" \in DOMAIN e /\ Len(e.ref) = Cardinality(DOMAIN a)
-                       THEN PosWalk(e.res, e.ref, 1, 0, Len(e.ref)) ELSE {})
+         res == NormCalls(e.res)
+         aref == IF "ref" \in DOMAIN e THEN AdaptRef(e.adapt, e.k, e.ref) ELSE <<>>
+         tags == ProtoFails(res, Elems(a), e.adapt, e.k, e.panic = 1)
+                 \cup (IF e.it = "sorted" /\ e.adapt \in {"", "none"} THEN OrderWalk(res, 1, Elems(a), e.kind) ELSE {})
+                 \cup (IF e.it # "sorted" /\ "ref" \in DOMAIN e /\ Len(e.ref) = Cardinality(DOMAIN a)
+                       THEN PosWalk(res, aref, 1, 0, Len(aref)) ELSE {})
                  \cup (IF e.op = "iter_calls" /\ e.hs = 1
                        THEN LET sf == SnapFails(e.snap, e.kind, expected, ordered, Empty) IN
                             IF isDrain /\ sf \cap {"contents", "payload", "tag"} # {} THEN (sf \ {"contents", "payload", "tag"}) \cup {"drain_not_empty"} ELSE sf
